@@ -632,5 +632,20 @@ func execOp(op string, a []string) string {
 		}
 		return "ok:" + showList(showSequence, seqs)
 	}
+	if f, ok := extraOps[op]; ok {
+		return f(a)
+	}
 	panic("harness: unknown op " + op)
+}
+
+// extraOps: requests registered by other files (init functions) so that new
+// properties do not have to edit the switch above.
+var extraOps = map[string]func(a []string) string{}
+
+func init() {
+	// the Go side of the spec comparisons is the same call as the plain request;
+	// the runner evaluates the rule-based specification instead of the code model
+	extraOps["specbuild"] = func(a []string) string { return execOp("build", a) }
+	extraOps["specconstruct"] = func(a []string) string { return execOp("construct", a) }
+	extraOps["speccompactix"] = func(a []string) string { return execOp("speccompact", a) }
 }
